@@ -260,6 +260,8 @@ class FakeOSSocket:
     def sendto(self, data, addr):
         if self.net.udp_handler is None:
             return len(data)
+        self.net.last_udp_bound = getattr(self, "addr", None)   # the local address the datagram leaves from (None: unbound socket)
+        self.net.udp_destinations = getattr(self.net, "udp_destinations", []) + [addr]
         self.udp_rx.extend(self.net.udp_handler(bytes(data), addr))
         return len(data)
 
